@@ -21,9 +21,7 @@ namespace as rebinding over the original context, because every ADF name is boun
 theorem withAdfs_override (env : Env) {d1 d2 : List (Str × (List Val → Option Val))}
     (hk : d1.map (·.1) = d2.map (·.1)) : withAdfs (withAdfs env d1) d2 = withAdfs env d2 := by
   unfold withAdfs
-  congr 1
-  funext x
-  cases h : d2.find? (fun e => e.1 == x) with
+  congr 1 <;> funext x <;> cases h : d2.find? (fun e => e.1 == x) with
   | some e => rfl
   | none => simp [find_none_of_keys hk x h]
 
